@@ -20,6 +20,7 @@ type semOut struct {
 	Src, Before, After fstree.Snap
 	S                  *SessionResult
 	Root               string
+	Pre                *Result // counters of the kill-state phase, if any
 }
 
 func semRun(t *testing.T, sc *SyncScenario, lay Layout, hooks SessionHooks) (*semOut, error) {
@@ -31,10 +32,21 @@ func semRun(t *testing.T, sc *SyncScenario, lay Layout, hooks SessionHooks) (*se
 		return nil, err
 	}
 	root := destRootFor(sc, lay)
+	var pre *Result
+	if sc.Kill != nil {
+		var kr Result
+		pre = &kr
+		if !killedState(t, sc, lay, &kr) {
+			if kr.Inconclusive != "" {
+				return nil, fmt.Errorf("inconclusive: %s", kr.Inconclusive)
+			}
+			return nil, fmt.Errorf("%s", kr.Invalid)
+		}
+	}
 	before, _ := fstree.Snapshot(root)
 	s := RunSyncSession(t, sc, lay, hooks)
 	after, _ := fstree.Snapshot(root)
-	return &semOut{Src: src, Before: before, After: after, S: s, Root: root}, nil
+	return &semOut{Src: src, Before: before, After: after, S: s, Root: root, Pre: pre}, nil
 }
 
 func listedFor(sc *SyncScenario, lay Layout, src fstree.Snap) []model.Listed {
@@ -159,6 +171,12 @@ func (c09) Generate(seed uint64, tier string, index int) any {
 	}
 	sc.Tr = g.TransportFor(min, 2*treeBytes(&sc.Src)+treeBytes(&sc.Dst))
 	out := &C09Scenario{Sync: sc}
+	if arr != "A4" && g.R.Intn(6) == 0 {
+		// prior state = what a kill in the middle of an earlier sync left
+		// behind: its temporary files are extraneous entries like any other
+		out.Sync.Kill = &KillPoint{PerMille: g.R.Intn(1001)}
+		return out
+	}
 	if arr == "A1" && del && g.R.Intn(3) == 0 {
 		if g.R.Bool() && len(sc.Src.Entries) > 0 {
 			out.Vanish = string(sc.Src.Entries[g.R.Intn(len(sc.Src.Entries))].Path)
@@ -193,6 +211,7 @@ func (c09) Run(t *testing.T, scenario any, job *Job, res *Result) {
 		res.Invalid = err.Error()
 		return
 	}
+	res.Merge(out.Pre)
 	res.AddSession(out.S)
 	o := model.ParseOpts(sc.Sync.Opts)
 	if o.Delete && !o.Recursive {
